@@ -815,6 +815,13 @@ func (e *ConditionalExpr) Value(ctx *hcl.EvalContext) (cty.Value, hcl.Diagnostic
 	resMarks = append(resMarks, condResultMarks, trueResultMarks, falseResultMarks)
 
 	if !condResult.IsKnown() {
+		// The unknown result stands for either of the two results, and its
+		// type and refinements are derived from both, so marks nested
+		// anywhere inside them apply to it too.
+		_, trueDeepMarks := trueResult.UnmarkDeep()
+		_, falseDeepMarks := falseResult.UnmarkDeep()
+		resMarks = append(resMarks, trueDeepMarks, falseDeepMarks)
+
 		trueRange := trueResult.Range()
 		falseRange := falseResult.Range()
 
